@@ -92,6 +92,8 @@ def c15_2(ctx, r):
         if isinstance(sn, ast.Name):
             ud = ctx.rd(fn).unique_def(node, sn.id)
             ok = ud is not None and render(ctx, fn, ud[1]) == "(<ClusterConfig.pipeline_stage_num> + 1)"
+        elif sn is not None:
+            ok = render(ctx, fn, sn) in ("(<ClusterConfig.pipeline_stage_num> + 1)", "<ClusterConfig.pipeline_stage_num> + 1")
         r.check(ok, "--stage-num = cluster.config.pipeline_stage_num + 1", key_of(fn, "stage-num value"), s.loc, f"--stage-num is `{ctx.src(sn) if sn is not None else None}`",
                 "stage k+1 ... after stage k")
         rc = opts.get("--return-code")
@@ -105,6 +107,8 @@ def c15_2(ctx, r):
         if isinstance(arg, ast.Name):
             ud = ctx.rd(fn).unique_def(node, arg.id)
             okd = ud is not None and ctx.src(ud[1]) == "os.path.dirname(self._output)"
+        elif arg is not None:
+            okd = ctx.src(arg) == "os.path.dirname(self._output)"
         r.check(okd, "the pipeline directory is the parent of the stage's output", key_of(fn, "pipeline dir"), s.loc, f"pipeline directory argument is `{ctx.src(arg) if arg is not None else None}`")
         # X0: options exist on the click command
         cmd = ctx.fn("pipeline.submit_next_stage", "C15.2")
